@@ -70,6 +70,13 @@ theorem specialAttrs_isExt (ext : Ext) (tag : List Char) (as : List AttrSt) (e :
   repeat (any_goals (split at h))
   all_goals first | (cases h; done) | (cases h; exact callExt_isExt (by assumption))
 
+theorem specialAttrsOpt_isExt (o : Opts) (ext : Ext) (tag : List Char) (as : List AttrSt) (e : String)
+    (h : specialAttrsOpt o ext tag as = .error e) : IsExtErr e := by
+  unfold specialAttrsOpt at h
+  split at h
+  · cases h
+  · exact specialAttrs_isExt ext tag as e h
+
 theorem step_isExt (o : Opts) (ext : Ext) (sub : Sub) (st : St) (t : HTok) (rest : List HTok) (e : String)
     (h : step o ext sub st t rest = .error e) : IsExtErr e := by
   unfold step at h
@@ -97,7 +104,7 @@ theorem step_isExt (o : Opts) (ext : Ext) (sub : Sub) (st : St) (t : HTok) (rest
       · split at h
         · cases h
         · split at h
-          · next err herr => cases h; exact specialAttrs_isExt ext name _ _ herr
+          · next err herr => cases h; exact specialAttrsOpt_isExt o ext name _ _ herr
           · split at h
             · next err herr => cases h; exact writeAttrs_isExt o ext sub name _ _ _ _ herr
             · cases h
